@@ -1,0 +1,17 @@
+//go:build verif
+
+// Constructors used only by the deterministic-simulation harness (build tag verif).
+package mastership
+
+import (
+	"github.com/onosproject/onos-config/pkg/store/topo"
+	"github.com/onosproject/onos-config/pkg/store/v2/configuration"
+)
+
+func NewReconcilerForVerif(t topo.Store, c configuration.Store) *Reconciler {
+	return &Reconciler{topo: t, configurations: c}
+}
+func NewTopoWatcherForVerif(t topo.Store) *TopoWatcher { return &TopoWatcher{topo: t} }
+func NewConfigurationStoreWatcherForVerif(c configuration.Store) *ConfigurationStoreWatcher {
+	return &ConfigurationStoreWatcher{configurations: c}
+}
